@@ -230,6 +230,16 @@ func quadProbes(rp *realPoly, limit int, r *rand.Rand) ([]v2.Vec, []int) {
 			kinds = append(kinds, k)
 		}
 	}
+	// far outside: 12 and 40 sizes of the bounding box away from it, in random directions
+	{
+		fb := rp.fast.BoundingBox()
+		fc, fs := fb.Center(), math.Max(fb.Size().X, fb.Size().Y)
+		for k := 0; k < 6; k++ {
+			a := r.Float64() * 2 * math.Pi
+			m := []float64{12, 40}[k%2] * fs
+			add(v2.Vec{X: fc.X + m*math.Cos(a), Y: fc.Y + m*math.Sin(a)}, 5)
+		}
+	}
 	order := r.Perm(len(bs))
 	for _, bi := range order {
 		b := bs[bi]
